@@ -389,6 +389,10 @@ class Executor(object):
                 self.may_raise('IndexError', z3.BoolVal(True), path, e)
                 raise Unsupported('index out of range at line %d' % e.lineno)
             return base.x[i]
+        for x_ in self.E.ext:
+            r = x_.subscript(self.E, self, base, idx, path, e)
+            if r is not None:
+                return r
         raise Unsupported('subscript %s[%s] at line %d' % (base.ty, idx.ty, e.lineno))
 
     def may_raise(self, exc, cond, path, node=None):
@@ -827,7 +831,7 @@ class Executor(object):
         tag = 'loop%d' % ordinal
         if coll is not None:
             seen0 = {'H': hp.empty_set(), 'pair': hp.empty_rel(), 'item': hp.empty_set(), 'value': hp.empty_set(),
-                     'ref': z3.K(I, z3.BoolVal(False))}[coll.kind]
+                     'ref': z3.K(I, z3.BoolVal(False)), 'F': z3.K(F, z3.BoolVal(False))}[coll.kind]
         else:
             seen0 = None
         # 1. invariant holds on entry
@@ -913,7 +917,7 @@ class Executor(object):
         if coll.kind == 'ref':
             r = hp.fresh('r!u', I)
             return z3.ForAll([r], z3.Implies(seen[r], coll.mem[r]))
-        x = hp.fresh('x!u', H)
+        x = hp.fresh('x!u', F if coll.kind == 'F' else H)
         return z3.ForAll([x], z3.Implies(seen[x], coll.mem[x]))
 
     def _seen_all(self, seen, coll):
@@ -923,7 +927,7 @@ class Executor(object):
         if coll.kind == 'ref':
             r = hp.fresh('r!v', I)
             return z3.ForAll([r], seen[r] == coll.mem[r])
-        x = hp.fresh('x!v', H)
+        x = hp.fresh('x!v', F if coll.kind == 'F' else H)
         return z3.ForAll([x], seen[x] == coll.mem[x])
 
     def _pick(self, coll, seen, path):
@@ -944,6 +948,12 @@ class Executor(object):
             x = hp.fresh('itk', H)
             cond = z3.And(coll.mem[x], z3.Not(seen[x]))
             return SV('item', (x, h.dval(coll.pair_second)[x])), cond
+        if coll.kind == 'F':
+            x = hp.fresh('itf', F)
+            cond = coll.mem[x]
+            if coll.distinct:
+                cond = z3.And(cond, z3.Not(seen[x]))
+            return SV('F', x), cond
         if coll.kind == 'value':
             x = hp.fresh('itk', H)
             cond = z3.And(coll.mem[x], z3.Not(seen[x]))
